@@ -8,6 +8,7 @@ RULE = ('kernel-level exchange/collect cases with band-dependent data, including
         '(a transposed band axis would stay shape-correct); pipeline scenes with 2-6 bands of band-dependent '
         'absorption/attenuation compared stage by stage with the single-band model and, on the implementation, '
         'with B single-band runs bit for bit; non-trivial = B>=2 with non-zero result')
+RULE = RULE + '; always one wall that absorbs fully in the FIRST band only'
 ASSUMPTIONS = ['the theorem only guards the model (band-wise by construction); the property of the code rests on the tie and the bitwise oracle']
 EXPLANATION = 'band b of a multi-band run is a function of band b of the inputs only (any scalar type).'
 
